@@ -70,6 +70,10 @@
     `union N ;` through the whole parse loop and the recursive core, in any block: exactly ONE
     `on_forward_decl` with the written class key and qualified name, the access level in force and
     the doc text found before it.
+  * `C01_toplevel_using_alias` (`Theorems/UsingAliasForm.lean`, `TopLevel.lean`): `using A = T ptr-ops ;` through the
+    whole parse loop and the recursive core, in any block: exactly ONE `on_using_alias` with the
+    alias name, the type the abstract declarator denotes, the access level in force and the doc
+    text found before it.
 -/
 import CxxModel.Tables
 import CxxModel.Props.C04
@@ -415,6 +419,37 @@ theorem C01_toplevel_forward_decl (env : Env) (hc : env.cfg = genLexCfg) (F D : 
       w7.delivered = w.delivered + 1 ∧ w7.anon = w.anon ∧ w7.muted = false ∧ w7.nextId = w.nextId :=
   toplevel_forward_decl env (by rw [hc]; exact gen_rules_progress) F D w kw first pairs semi bk b1 bmid b' blk rest hstack hmu hfa
     htkw hkw hkwt htf hf hfv hall hy htok hs hF
+
+end
+
+section
+open P
+
+theorem C01_toplevel_using_alias (env : Env) (hc : env.cfg = genLexCfg) (F D : Nat) (w : World)
+    (kw a eq first : Tok) (pairs : List (Tok × Tok)) (ops : List Tok) (semi : Tok) (d1 : DType) (bk ba bq b1 b0 bmid b' : Buf)
+    (blk : Block) (rest : List Block) (hstack : w.stack = blk :: rest)
+    (hmu : w.muted = false) (hfa : ¬ env.faultAt = some w.delivered)
+    (htkw : tokenEofOk env.cfg w.buf = .ok (some kw, bk)) (hkw : kw.type = "using")
+    (hta : tokenEofOk env.cfg bk = .ok (some a, ba)) (ha : a.type = "NAME")
+    (hte : tokenEofOk env.cfg ba = .ok (some eq, bq)) (heq : eq.type = "=")
+    (htf : tokenEofOk env.cfg bq = .ok (some first, b1)) (hf : first.type = "NAME") (hfv : identVal first.value = true)
+    (hall : ∀ p ∈ pairs, p.1.type = "DBL_COLON" ∧ p.2.type = "NAME" ∧ plainVal p.2.value = true)
+    (hy0 : Yields env.cfg b1 (pairs.flatMap (fun p => [p.1, p.2])) b0)
+    (hops : opsHeadOk ops = true)
+    (hy : Yields env.cfg b0 ops bmid)
+    (hap : applyPtrOps (.type (.mk (.name first.value none :: pairs.map (fun p => .name p.2.value none)) none false) false false)
+      (ops.map (·.type)) = some d1)
+    (hsemi : tokenEofOk env.cfg bmid = .ok (some semi, b')) (hs : semi.type = ";")
+    (hF : pairs.length + ops.length + 2 ≤ F) :
+    ∃ (d : Option String) (bD : Buf) (w7 : World) (ct : CTok) (ev : Event),
+      getDoxygen env.cfg env.mcRe w.buf = .ok (d, bD) ∧
+      interp env (mainBody F (core F (D + 1 + 1)) none) w = (w7, .ok (.inl none)) ∧
+      w7.buf = b' ∧ ct.value = kw.value ∧ w7.stack = { blk with loc := .tok ct.sidx } :: rest ∧
+      w7.events = w.events ++ [ev] ∧ ev.kind = .item (.usingAlias (plainAlias a d1 blk d)) ∧
+      ev.stateId = blk.id ∧ ev.parentId = rest.head?.map (·.id) ∧
+      w7.delivered = w.delivered + 1 ∧ w7.anon = w.anon ∧ w7.muted = false ∧ w7.nextId = w.nextId :=
+  toplevel_using_alias env (by rw [hc]; exact gen_rules_progress) F D w kw a eq first pairs ops semi d1 bk ba bq b1 b0 bmid b' blk rest hstack hmu hfa
+    htkw hkw hta ha hte heq htf hf hfv hall hy0 hops hy hap hsemi hs hF
 
 end
 
